@@ -781,6 +781,35 @@ def fam_tok(prop, tier):
          "Some(a) |> |x: u8| { *cnt_ref += 1; x } ~|> |x: u8| x, Some(local.0) ~|> |x: u8| x.wrapping_add(local.0)",
          "0", "(Some(x), Some(y)) => *x == a && *y == 14, _ => false"),
     ]
+    if prop == "C19":
+        # non-Send (Rc) values and non-'static borrows in the non-spawning kinds, sync and async
+        extra = [
+            ("rc_non_send", "    let rc = std::rc::Rc::new(a);\n",
+             "join! { Some(rc.clone()) |> |r: std::rc::Rc<u8>| *r ~|> |x: u8| x, Some(std::rc::Rc::new(1u8)) ~|> |r: std::rc::Rc<u8>| *r }",
+             "(Option<u8>, Option<u8>)", "r == (Some(a), Some(1))"),
+            ("borrow_non_static_try", "    let local = [a, 2u8];\n    let mut out = 0u8;\n    let out_ref = &mut out;\n",
+             "try_join! { Some(&local) |> |l: &[u8; 2]| l[0] ~|> |x: u8| { *out_ref = x; x }, local.get(1) ~|> |x: &u8| *x }",
+             "Option<(u8, u8)>", "r == Some((a, 2))"),
+            ("async_borrow_non_send", "    let local = std::rc::Rc::new(a);\n    let lref = &local;\n",
+             "run(join_async! { gate(0, 1, lref) |> |r: &std::rc::Rc<u8>| **r, gate(0, 2, std::rc::Rc::new(3u8)) ~|> |r: std::rc::Rc<u8>| *r }, 1).0",
+             "Option<(u8, u8)>", "r == Some((a, 3))"),
+            ("try_async_borrow_mut", "    let mut cnt = 0u8;\n    let cnt_ref = &mut cnt;\n",
+             "run(try_join_async! { gate(0, 1, Ok::<u8, u8>(a)) ~=> |x: u8| { *cnt_ref += 1; core::future::ready(Ok::<u8, u8>(x)) } }, 1).0",
+             "Option<Result<u8, u8>>", "r == Some(Ok(a))"),
+        ]
+        extra += [
+            ("wrapper_scope_borrows_mut", "    let mut seen = 0u8;\n",
+             "join! { Some(Some(a)) |> >>> |> |v: u8| { seen = seen.wrapping_add(1); v } <<< }",
+             "Option<Option<u8>>", "r == Some(Some(a)) && seen == 1"),
+            ("wrapper_scope_borrows_move_only", "    let s = Tok::new(7);\n",
+             "try_join! { Some(Some(a)) ~|> >>> |> |v: u8| v.wrapping_add(s.0) <<<, Some(Some(1u8)) |> >>> |> |v: u8| v.wrapping_add(s.0) }",
+             "Option<(Option<u8>, Option<u8>)>", "r == Some((Some(a.wrapping_add(7)), Some(8))) && s.0 == 7"),
+        ]
+        for (name, pre, prog, rty, ok) in extra:
+            b = "    let a: u8 = kani::any();\n" + pre
+            b += "    let r: %s = %s;\n    assert!(%s);\n" % (rty, prog, ok)
+            hn = "c19_bounds_%s" % name
+            out.append(Harness(hn, harness_fn(hn, b, unwind=3), prog, note="no Send / 'static / Clone requirement in non-spawning kinds"))
     for (name, mac, rty, body, live_expr, okpat) in progs:
         b = "    let a: u8 = kani::any();\n    let keep: bool = kani::any();\n"
         if name == "borrow_caller_stack":
